@@ -39,6 +39,7 @@ Theorem model_is_of_current_source :
   Gen.C13.batch_queries = ["BatchRequestByNonce"; "LastPendingBatchForGasEstimation"; "LastPendingBatchRequestByAddr";
                            "OutgoingTxBatches"]%string /\
   Gen.C13.add_evidence_one_entry_per_validator = true /\
+  Gen.C13.evidence_lookup_is_live_registry = true /\
   Gen.C13.dummy_gas_estimate = 300000 /\ Gen.C13.estimate_zero_means_dummy = true /\
   Gen.C13.checkpoint_fields =
     ["i.TokenContract.GetAddress()"; "args"; "big.NewInt(int64(i.BatchNonce))"; "turnstoneBytes32";
@@ -46,7 +47,7 @@ Theorem model_is_of_current_source :
   Gen.C13.prune_floor_factor = 10 /\ Gen.C13.prune_floor_strict = true /\
   Gen.C13.undelivered_is_no_public_and_no_error = true /\
   Gen.C13.prune_jails_snapshot_vals_without_evidence = true.
-Proof. exact (conj eq_refl (conj eq_refl (conj eq_refl (conj eq_refl (conj eq_refl (conj eq_refl (conj eq_refl (conj eq_refl (conj eq_refl eq_refl))))))))). Qed.
+Proof. exact (conj eq_refl (conj eq_refl (conj eq_refl (conj eq_refl (conj eq_refl (conj eq_refl (conj eq_refl (conj eq_refl (conj eq_refl (conj eq_refl eq_refl)))))))))). Qed.
 Print Assumptions model_is_of_current_source.
 
 (** Every checkpoint the chain ever published for signing — at build time or when a gas estimate
